@@ -128,6 +128,10 @@ def _placement_table(ctx, sg):
                 if it["n"] is not None and (it["n"] >= len(names) or names[it["n"]] != it["name"]):
                     out.append(("fixed", f"{what}: {it['name']} is fixed at {it['n']} but the placement is {names}"))
                     break
+            auto = sorted((names.index(it["name"]), it["duid"]) for it in items if it["n"] is None and it["name"] in names)
+            if [d_ for _, d_ in auto] != sorted(d_ for _, d_ in auto):
+                out.append(("order", f"{what}: automatic registers are placed in the order of duids {[d_ for _, d_ in auto]}: the map depends on "
+                                     f"the order in which the registers were gathered"))
     ctx.analysed["paths"] += n_ev
     return out
 
@@ -368,15 +372,18 @@ def run(ctx):
     cn = cm_.method("CSRFieldAggregate", "check_names")
     ok = any(isinstance(n, ast.If) and norm(n.test) == "field.name in names" and any(isinstance(x, ast.Raise) for x in n.body) for n in ast.walk(cn))
     ctx.ob("R3", CSR, "CSRFieldAggregate.check_names", "duplicate field name raises", ok, "" if ok else "name check changed", cn)
+    # the loop over the fields is rendered `field.x` (loop over a literal copy) or `fields[_field].x` (loop over the list itself)
+    def fld(t):
+        return t.replace("fields[_field]", "field")
     fl = [a for a in fxs.find(domain="comb") if a.t.startswith("getattr(self.fields,")]
-    ok = len(fl) == 2 and all(a.v == "self.storage[field.offset:field.offset + field.size]" for a in fl)
+    ok = len(fl) == 2 and all(fld(a.v) == "self.storage[field.offset:field.offset + field.size]" and fld(a.t) == "getattr(self.fields, field.name)" for a in fl)
     ctx.ob("R3", CSR, "CSRStorage.__init__", "field = storage[offset : offset+size]", ok, "" if ok else f"{[a.v for a in fl]}")
-    pul = [a for a in fl if ("field.pulse", True) in a.pyguards]
+    pul = [a for a in fl if ("field.pulse", True) in [(fld(t), p_) for t, p_ in a.pyguards]]
     ok = len(pul) == 1 and q.EQ(pul[0], B.A("self.re"))
     ctx.ob("R3", CSR, "CSRStorage.__init__", "pulse fields visible only in the write-strobe cycle", ok, "" if ok else f"{[(a.gtext(), a.pyguards) for a in pul]}")
     sf = [a for a in fxt.find(domain="comb") if a.t.startswith("self.status[")]
-    ok = len(sf) == 1 and sf[0].t == "self.status[fields[_field].offset:fields[_field].offset + fields[_field].size]" and \
-        sf[0].v == "getattr(self.fields, fields[_field].name)"
+    ok = len(sf) == 1 and fld(sf[0].t) == "self.status[field.offset:field.offset + field.size]" and \
+        fld(sf[0].v) == "getattr(self.fields, field.name)"
     ctx.ob("R3", CSR, "CSRStatus.__init__", "status[offset : offset+size] = field", ok, "" if ok else f"{[(a.t, a.v) for a in sf]}")
     gr = cm_.method("CSRFieldAggregate", "get_reset")
     ok = any(isinstance(n, ast.AugAssign) and isinstance(n.op, ast.BitOr) and norm(n.value) == "field.reset_value << field.offset" for n in ast.walk(gr))
@@ -396,13 +403,11 @@ def run(ctx):
                 okk = okk and P.has_test(p, "sorted_items[item.n] is None", True, upto=k)
     okk = okk and n_store > 0
     ctx.ob("R4", CSR, "_sort_gathered_items", "clash test precedes the placement", okk, "" if okk else "fixed item stored before the clash test", sg)
-    ok = any(isinstance(n, ast.Assign) and norm(n.targets[0]) == "variable_items" and norm(n.value) == "sorted(variable_items, key=lambda x: x.duid)"
-             for n in ast.walk(sg))
-    ctx.ob("R4", CSR, "_sort_gathered_items", "automatic items placed in duid order", ok, "" if ok else "variable items not sorted by duid", sg)
     dev = _placement_table(ctx, sg)
     for kind, role in (("lost", "every gathered register is placed exactly once (none dropped, none at two locations)"),
                        ("fixed", "a register with a fixed location sits at that location"),
-                       ("clash", "two registers fixed at one location are refused (table)")):
+                       ("clash", "two registers fixed at one location are refused (table)"),
+                       ("order", "automatic items placed in duid order")):
         bad = [d for d in dev if d[0] == kind]
         ctx.ob("R4", CSR, "_sort_gathered_items", role, not bad, "" if not bad else f"{bad[0][1]} ({len(bad)} of the register sets)", sg)
     mg = cm_.func("_make_gatherer")
